@@ -32,7 +32,12 @@ class AsyncPass(Unit):
                 "c,a,tc,s0,s1", "c,a,ta,s0,s1", "x,a,tc,s0", "c,a,s0,s0", "a,tc,tc,s0", "c,ta,ta,s0"]
         progs = [(p, "stop") for p in quick]
         progs += [(p, "deaf") for p in ("c,a,s0", "c,a,s0,s1", "c,a,tc,s1")]
+        # monitor-only: every receiver destroys (and poisons) its operation state inside the completion
+        # signal; an access to a cancellable state_ afterwards shows the poison (cancellable.hpp
+        # stop_type::start touches state_ after another thread may have completed the operation)
+        progs += [("c,a", "deaf", "destroy")]
         if tier != "quick":
+            progs += [("c,a,s0", "deaf", "destroy"), ("c,a,ta", "deaf", "destroy")]
             progs += [(p, "stop") for p in more] + [(p, "deaf") for p in quick[3:] + more[:6]]
         return progs
 
@@ -41,6 +46,8 @@ class AsyncPass(Unit):
         return "%s %s" % (hop, prog[0])
 
     def project(self, prog, events):
+        if len(prog) > 2:          # destroy mode: no lock-step (start() frames cannot be named), monitor only
+            return []
         kinds = prog[0].split(",")
         target = {t: int(k[1:]) for t, k in enumerate(kinds) if k[0] == "s"}
         reg_done, inline_cb, stop_done, sync_first = set(), set(), set(), set()
@@ -93,6 +100,8 @@ class AsyncPass(Unit):
         return out
 
     def post_check(self, prog, summary, proj):
+        if len(prog) > 2:
+            return None
         if "aborted=0" not in summary:
             return "model aborted (std::terminate) on a run the implementation survived: " + summary
         if "all_done=1" not in summary:
